@@ -12,7 +12,9 @@
 //!   * whatever the decoder accepts re-encodes to exactly the bytes it consumed (canonical form);
 //!   * each canonical-form violation is refused.
 use chrono::{DateTime, Utc};
+use grin_chain::txhashset::{BitmapChunk, BitmapSegment};
 use grin_chain::types::Tip;
+use grin_core::core::pmmr::segment::{Segment, SegmentIdentifier, SegmentProof};
 use grin_core::core::hash::{Hash, Hashed};
 use grin_core::core::{
 	Block, BlockHeader, CommitWrapper, CompactBlock, HeaderVersion, Input, Inputs, KernelFeatures,
@@ -27,8 +29,16 @@ use grin_core::ser::{
 use grin_keychain::BlindingFactor;
 use grin_util::secp::pedersen::{Commitment, RangeProof};
 use grin_util::secp::Signature;
+use grin_p2p::msg::{
+	BanReason, GetPeerAddrs, Hand, Headers, Locator, MsgHeader, MsgHeaderWrapper,
+	OutputBitmapSegmentResponse, OutputSegmentResponse, PeerAddrs, PeerError, Ping, Pong,
+	SegmentRequest, SegmentResponse, Shake, TxHashSetArchive, TxHashSetRequest, Type,
+};
+use grin_p2p::types::{Capabilities, PeerAddr, ReasonForBan};
 use gvharness::*;
-use std::collections::BTreeMap;
+use std::collections::{BTreeMap, BTreeSet};
+use std::net::{Ipv4Addr, Ipv6Addr, SocketAddr, SocketAddrV4, SocketAddrV6};
+use std::panic::AssertUnwindSafe;
 
 const VERSIONS: [u32; 4] = [1, 2, 3, 1000];
 const TS_MAX: i64 = 8210266790400;
@@ -112,6 +122,15 @@ trait Ty: Readable + Writeable + Sized {
 	/// layout of the encoding at version `v` (where the range proofs sit)
 	fn segs(&self, v: u32) -> Vec<Seg> {
 		vec![Seg::Plain(enc_at(self, v).map(|b| b.len()).unwrap_or(0))]
+	}
+	/// recorded findings (tags) that explain exactly why the accepted bytes `input` re-encode to
+	/// `canon` != `input`; empty = not explained (an oracle failure)
+	fn known_noncanon(_input: &[u8], _canon: &[u8], _x: &Self, _v: u32) -> Vec<String> {
+		vec![]
+	}
+	/// recorded findings that explain exactly why the decoded value `d` differs from `self`
+	fn known_differs(&self, _d: &Self, _v: u32) -> Vec<String> {
+		vec![]
 	}
 }
 
@@ -737,13 +756,28 @@ fn dec_case<T: Ty>(
 						));
 						cx.stat(format!("{} v{} probe:rangeproof-length-normalised", T::NAME, v));
 					} else {
-						cx.out.raw(&format!(
-							"#ORACLE-FAIL C10 {} v{}: non-canonical encoding accepted and normalised: in={} out={}",
-							T::NAME,
-							v,
-							hex(&bytes[..consumed]),
-							hex(re)
-						));
+						let tags = T::known_noncanon(&bytes[..consumed], re, &x, v);
+						if tags.is_empty() {
+							cx.out.raw(&format!(
+								"#ORACLE-FAIL C10 {} v{}: non-canonical encoding accepted and normalised: in={} out={}",
+								T::NAME,
+								v,
+								hex(&bytes[..consumed]),
+								hex(re)
+							));
+						}
+						for t in tags {
+							let shown = if consumed <= 400 {
+								hex(&bytes[..consumed])
+							} else {
+								format!("{}… (first 80 of {} bytes; the whole input is on the preceding `ser dec` line)", hex(&bytes[..80]), consumed)
+							};
+							cx.out.raw(&format!(
+								"#KNOWN-PROBE C10 {}: {} v{} accepts a non-canonical encoding and re-encodes it differently ({} bytes in, {} bytes out): {}",
+								t, T::NAME, v, consumed, re.len(), shown
+							));
+							cx.stat(format!("{} v{} probe:{}", T::NAME, v, t));
+						}
 					}
 				}
 				Err(e) => {
@@ -767,12 +801,22 @@ fn dec_case<T: Ty>(
 			}
 			if let (Some(o), Expect::Valid) = (orig, expect) {
 				if !o.same(&x, v) {
-					cx.out.raw(&format!(
-						"#ORACLE-FAIL C10 {} v{}: decoded value differs from the encoded one: {}",
-						T::NAME,
-						v,
-						hex(bytes)
-					));
+					let tags = o.known_differs(&x, v);
+					if tags.is_empty() {
+						cx.out.raw(&format!(
+							"#ORACLE-FAIL C10 {} v{}: decoded value differs from the encoded one: {}",
+							T::NAME,
+							v,
+							hex(bytes)
+						));
+					}
+					for t in tags {
+						cx.out.raw(&format!(
+							"#KNOWN-PROBE C10 {}: {} v{} written and read back is not the value that was written: {}",
+							t, T::NAME, v, if bytes.len() <= 400 { hex(bytes) } else { format!("{}… (first 80 of {} bytes; the whole encoding is on the preceding `ser dec` line)", hex(&bytes[..80]), bytes.len()) }
+						));
+						cx.stat(format!("{} v{} probe:{}", T::NAME, v, t));
+					}
 				}
 				if T::HASH_STABLE && o.hash_hex() != hs {
 					cx.out.raw(&format!(
@@ -1546,11 +1590,77 @@ fn bodies(cx: &mut Ctx) {
 			dec_case::<Transaction>(cx, *v, true, 'A', &tb, None, Expect::Any, what);
 		}
 	}
+	weight_boundary(cx);
 	// a few big mainnet bodies
 	let nbig = if cx.thorough { 4 } else { 1 };
 	for _ in 0..nbig {
 		let body = gen_body(&mut cx.rng, 300, 60, 80, false, false, true);
 		roundtrip_all(cx, 'M', true, &body, false);
+	}
+}
+
+/// Bodies and blocks whose weight (inputs*1 + outputs*21 + kernels*3) is exactly
+/// `global::max_block_weight()`, one below and one above, on both chain types and under every
+/// protocol version: at or below the limit a body decodes from its own encoding to an equal value,
+/// one above it is refused (`TransactionBody::read` tests `weight > max_block_weight()`).
+fn weight_boundary(cx: &mut Ctx) {
+	for chain in ['A', 'M'].iter() {
+		set_env(*chain, true);
+		let max = global::max_block_weight();
+		// (inputs, outputs, kernels) at max - 1, max, max + 1
+		let comps: [(usize, usize, usize); 3] = if *chain == 'A' {
+			[(0, 10, 13), (1, 10, 13), (2, 10, 13)]
+		} else {
+			[(18, 1902, 13), (19, 1902, 13), (20, 1902, 13)]
+		};
+		for (k, (ni, no, nk)) in comps.iter().enumerate() {
+			let w = (*ni + 21 * *no + 3 * *nk) as u64;
+			let what = ["weight-max-1", "weight-max", "weight-max+1"][k];
+			if w + 1 != max + k as u64 {
+				cx.out.raw(&format!("#ORACLE-FAIL C10 weight boundary composition {}/{}/{} = {} does not sit at max_block_weight {} {:+}", ni, no, nk, w, max, k as i64 - 1));
+				continue;
+			}
+			// Mainnet encodings are 1.4 MB each: the quick tier keeps the limit itself and one above,
+			// at the two input formats; the thorough tier does everything
+			let versions: Vec<u32> = if *chain == 'A' || cx.thorough {
+				VERSIONS.to_vec()
+			} else if k == 0 {
+				vec![]
+			} else {
+				vec![2, 3]
+			};
+			if versions.is_empty() {
+				continue;
+			}
+			set_env(*chain, true);
+			let body = gen_body(&mut cx.rng, *ni, *no, *nk, false, false, true);
+			let co_body = gen_body(&mut cx.rng, *ni, *no, *nk, true, false, true);
+			let blk = Block {
+				header: gen_header(&mut cx.rng, *chain),
+				body: body.clone(),
+			};
+			for v in versions.iter() {
+				set_env(*chain, true);
+				let exp = if k < 2 { Expect::Valid } else { Expect::Reject };
+				let bb = enc_at(&body, *v).unwrap();
+				dec_case::<TransactionBody>(cx, *v, true, *chain, &bb, Some(&body), exp, what);
+				if *chain == 'A' || cx.thorough || *v == 3 {
+					set_env(*chain, true);
+					let kb = enc_at(&blk, *v).unwrap();
+					dec_case::<Block>(cx, *v, true, *chain, &kb, Some(&blk), exp, what);
+				}
+				if *v >= 3 && (*chain == 'A' || cx.thorough) {
+					set_env(*chain, true);
+					let cb = enc_at(&co_body, *v).unwrap();
+					dec_case::<TransactionBody>(cx, *v, true, *chain, &cb, Some(&co_body), exp, what);
+				}
+			}
+			if *chain == 'A' {
+				for v in [1u32, 3].iter() {
+					let _ = enc_case(cx, *v, 'A', &body);
+				}
+			}
+		}
 	}
 }
 
@@ -1675,6 +1785,1827 @@ fn compact_blocks(cx: &mut Ctx) {
 	}
 }
 
+// ---------------------------------------------------------------------------------------------
+// MMR segments (core/src/core/pmmr/segment.rs, chain/src/txhashset/bitmap_accumulator.rs)
+
+fn proof_hashes(p: &SegmentProof) -> Vec<Hash> {
+	// SegmentProof has no accessor for its hashes: go through its serialisation
+	let bytes = ser::ser_vec(p, ProtocolVersion(1)).unwrap();
+	let mut n8 = [0u8; 8];
+	n8.copy_from_slice(&bytes[0..8]);
+	let n = u64::from_be_bytes(n8) as usize;
+	(0..n).map(|i| Hash::from_vec(&bytes[8 + 32 * i..8 + 32 * (i + 1)])).collect()
+}
+
+fn mk_proof(hs: &[Hash]) -> SegmentProof {
+	let mut bytes = (hs.len() as u64).to_be_bytes().to_vec();
+	for h in hs {
+		bytes.extend_from_slice(h.as_bytes());
+	}
+	ser::deserialize(&mut &bytes[..], ProtocolVersion(1), DeserializationMode::default()).unwrap()
+}
+
+fn hashes_tokens(hs: &[Hash]) -> String {
+	let mut s = hs.len().to_string();
+	for h in hs {
+		s.push(' ');
+		s.push_str(&hex(h.as_bytes()));
+	}
+	s
+}
+
+impl Ty for SegmentIdentifier {
+	const NAME: &'static str = "SegmentIdentifier";
+	fn hash_hex(&self) -> Option<String> {
+		None
+	}
+	fn same(&self, d: &Self, _v: u32) -> bool {
+		self == d
+	}
+	fn describe(&self) -> String {
+		format!("{} {}", self.height, self.idx)
+	}
+}
+
+impl Ty for SegmentProof {
+	const NAME: &'static str = "SegmentProof";
+	fn hash_hex(&self) -> Option<String> {
+		None
+	}
+	fn same(&self, d: &Self, _v: u32) -> bool {
+		self == d
+	}
+	fn describe(&self) -> String {
+		hashes_tokens(&proof_hashes(self))
+	}
+}
+
+/// leaf types of the three PIBD segment kinds
+trait Item: Readable + Writeable + Clone {
+	const SEG_NAME: &'static str;
+	const RESP_NAME: &'static str;
+	fn tok(&self) -> String;
+	fn eq_item(&self, o: &Self) -> bool;
+	fn item_seg(&self, v: u32) -> Seg;
+	fn gen(rng: &mut Rng, i: usize) -> Self;
+}
+
+impl Item for OutputIdentifier {
+	const SEG_NAME: &'static str = "OutputSegment";
+	const RESP_NAME: &'static str = "-";
+	fn tok(&self) -> String {
+		format!("{} {}", of_tok(self.features), hex(&self.commit.0))
+	}
+	fn eq_item(&self, o: &Self) -> bool {
+		self.features == o.features && self.commit == o.commit
+	}
+	fn item_seg(&self, _v: u32) -> Seg {
+		Seg::Plain(34)
+	}
+	fn gen(rng: &mut Rng, i: usize) -> Self {
+		gen_output(rng, i % 3 == 1).identifier
+	}
+}
+
+impl Item for RangeProof {
+	const SEG_NAME: &'static str = "RangeProofSegment";
+	const RESP_NAME: &'static str = "RangeProofSegmentResponse";
+	fn tok(&self) -> String {
+		format!("{} {}", self.plen, hex(&self.proof[..]))
+	}
+	fn eq_item(&self, o: &Self) -> bool {
+		rp_same(self, o)
+	}
+	fn item_seg(&self, _v: u32) -> Seg {
+		Seg::Proof
+	}
+	fn gen(rng: &mut Rng, _i: usize) -> Self {
+		range_proof(rng, 675, false)
+	}
+}
+
+impl Item for TxKernel {
+	const SEG_NAME: &'static str = "KernelSegment";
+	const RESP_NAME: &'static str = "KernelSegmentResponse";
+	fn tok(&self) -> String {
+		self.describe()
+	}
+	fn eq_item(&self, o: &Self) -> bool {
+		kernel_same(self, o)
+	}
+	fn item_seg(&self, v: u32) -> Seg {
+		Seg::Plain(enc_at(self, v).map(|b| b.len()).unwrap_or(0))
+	}
+	fn gen(rng: &mut Rng, i: usize) -> Self {
+		gen_kernel(rng, i as u64)
+	}
+}
+
+fn seg_tokens<T: Item>(s: &Segment<T>) -> String {
+	let (id, hp, hs, lp, ld, pf) = s.clone().parts();
+	let mut out = format!("{} {} {} {} {} {}", id.height, id.idx, nat_list(&hp), hashes_tokens(&hs), nat_list(&lp), ld.len());
+	for d in &ld {
+		out.push(' ');
+		out.push_str(&d.tok());
+	}
+	out.push(' ');
+	out.push_str(&hashes_tokens(&proof_hashes(&pf)));
+	out
+}
+
+fn seg_same<T: Item>(a: &Segment<T>, b: &Segment<T>) -> bool {
+	let (ia, hpa, hsa, lpa, lda, pfa) = a.clone().parts();
+	let (ib, hpb, hsb, lpb, ldb, pfb) = b.clone().parts();
+	ia == ib
+		&& hpa == hpb
+		&& hsa == hsb
+		&& lpa == lpb
+		&& lda.len() == ldb.len()
+		&& lda.iter().zip(ldb.iter()).all(|(x, y)| x.eq_item(y))
+		&& pfa == pfb
+}
+
+fn seg_segs<T: Item>(s: &Segment<T>, v: u32, prefix: usize, suffix: usize) -> Vec<Seg> {
+	let (_, _hp, hs, _lp, ld, pf) = s.clone().parts();
+	let mut segs = vec![Seg::Plain(prefix + 9 + 8 + hs.len() * 40 + 8 + ld.len() * 8)];
+	for d in &ld {
+		segs.push(d.item_seg(v));
+	}
+	segs.push(Seg::Plain(8 + 32 * pf.size() + suffix));
+	segs
+}
+
+impl<T: Item> Ty for Segment<T> {
+	const NAME: &'static str = T::SEG_NAME;
+	fn hash_hex(&self) -> Option<String> {
+		None
+	}
+	fn same(&self, d: &Self, _v: u32) -> bool {
+		seg_same(self, d)
+	}
+	fn describe(&self) -> String {
+		seg_tokens(self)
+	}
+	fn segs(&self, v: u32) -> Vec<Seg> {
+		seg_segs(self, v, 0, 0)
+	}
+}
+
+impl<T: Item> Ty for SegmentResponse<T> {
+	const NAME: &'static str = T::RESP_NAME;
+	fn hash_hex(&self) -> Option<String> {
+		None
+	}
+	fn same(&self, d: &Self, _v: u32) -> bool {
+		self.block_hash == d.block_hash && seg_same(&self.segment, &d.segment)
+	}
+	fn describe(&self) -> String {
+		format!("{} {}", hex(self.block_hash.as_bytes()), seg_tokens(&self.segment))
+	}
+	fn segs(&self, v: u32) -> Vec<Seg> {
+		seg_segs(&self.segment, v, 32, 0)
+	}
+}
+
+impl Ty for OutputSegmentResponse {
+	const NAME: &'static str = "OutputSegmentResponse";
+	fn hash_hex(&self) -> Option<String> {
+		None
+	}
+	fn same(&self, d: &Self, _v: u32) -> bool {
+		self.response.block_hash == d.response.block_hash
+			&& seg_same(&self.response.segment, &d.response.segment)
+			&& self.output_bitmap_root == d.output_bitmap_root
+	}
+	fn describe(&self) -> String {
+		format!(
+			"{} {} {}",
+			hex(self.response.block_hash.as_bytes()),
+			seg_tokens(&self.response.segment),
+			hex(self.output_bitmap_root.as_bytes())
+		)
+	}
+}
+
+// ---- bitmap segments: the harness keeps its own picture of the blocks (bits) ----
+
+/// bits of one block, `n_chunks * 1024` of them
+#[derive(Clone, PartialEq)]
+struct BlockBits(Vec<bool>);
+
+impl BlockBits {
+	fn to_bytes(&self) -> Vec<u8> {
+		// BitVec::to_bytes: bit i -> byte i/8, mask 0x80 >> (i%8)
+		let mut out = vec![0u8; self.0.len() / 8];
+		for (i, b) in self.0.iter().enumerate() {
+			if *b {
+				out[i / 8] |= 0x80 >> (i % 8);
+			}
+		}
+		out
+	}
+	/// harness-side encoder of a block in a chosen mode (0 raw, 1 positive, 2 negative);
+	/// `order`: 0 ascending, 1 descending, 2 ascending with the first index repeated
+	fn encode(&self, mode: u8, order: u8) -> Vec<u8> {
+		let mut out = vec![(self.0.len() / 1024) as u8, mode];
+		match mode {
+			0 => out.extend_from_slice(&self.to_bytes()),
+			_ => {
+				let want = mode == 1;
+				let mut idx: Vec<u16> = self.0.iter().enumerate().filter(|(_, b)| **b == want).map(|(i, _)| i as u16).collect();
+				if order == 1 {
+					idx.reverse();
+				}
+				if order == 2 && !idx.is_empty() {
+					let f = idx[0];
+					idx.insert(0, f);
+				}
+				out.extend_from_slice(&(idx.len() as u16).to_be_bytes());
+				for i in idx {
+					out.extend_from_slice(&i.to_be_bytes());
+				}
+			}
+		}
+		out
+	}
+	/// the mode `BitmapBlock::write` picks
+	fn canonical_mode(&self) -> u8 {
+		let pos = self.0.iter().filter(|b| **b).count();
+		let neg = self.0.len() - pos;
+		if pos < 4096 {
+			1
+		} else if neg < 4096 {
+			2
+		} else {
+			0
+		}
+	}
+}
+
+/// the blocks of a (valid) bitmap segment, through `into_segment` and the chunks' own bytes
+fn bitmap_blocks(s: &BitmapSegment) -> Option<(SegmentIdentifier, Vec<BlockBits>, Vec<Hash>)> {
+	let s2 = s.clone();
+	let seg: Segment<BitmapChunk> = catch(AssertUnwindSafe(move || s2.into_segment())).ok()?.ok()?;
+	let (id, _, _, _, chunks, proof) = seg.parts();
+	let mut blocks = vec![];
+	for group in chunks.chunks(64) {
+		let mut bits = vec![];
+		for c in group {
+			let mut cb = vec![false; 1024];
+			for i in c.set_iter(0) {
+				cb[i as usize] = true;
+			}
+			bits.extend_from_slice(&cb);
+		}
+		blocks.push(BlockBits(bits));
+	}
+	Some((id, blocks, proof_hashes(&proof)))
+}
+
+fn bitmap_tokens(s: &BitmapSegment) -> String {
+	match bitmap_blocks(s) {
+		Some((id, blocks, pf)) => {
+			let mut out = format!("{} {} {}", id.height, id.idx, blocks.len());
+			for b in &blocks {
+				out.push_str(&format!(" {} {}", b.0.len() / 1024, hex(&b.to_bytes())));
+			}
+			out.push(' ');
+			out.push_str(&hashes_tokens(&pf));
+			out
+		}
+		None => "invalid".to_string(),
+	}
+}
+
+/// block byte ranges of an encoded bitmap segment starting at `off`; None if the walk runs out
+fn walk_bitmap(b: &[u8], off: usize) -> Option<(Vec<(usize, usize)>, usize)> {
+	let mut i = off + 9;
+	if b.len() < i + 2 {
+		return None;
+	}
+	let n = u16::from_be_bytes([b[i], b[i + 1]]) as usize;
+	i += 2;
+	let mut ranges = vec![];
+	for _ in 0..n {
+		let st = i;
+		if b.len() < i + 2 {
+			return None;
+		}
+		let nch = b[i] as usize;
+		let mode = b[i + 1];
+		i += 2;
+		if mode == 0 {
+			i += nch * 128;
+		} else {
+			if b.len() < i + 2 {
+				return None;
+			}
+			let k = u16::from_be_bytes([b[i], b[i + 1]]) as usize;
+			i += 2 + 2 * k;
+		}
+		if i > b.len() {
+			return None;
+		}
+		ranges.push((st, i));
+	}
+	Some((ranges, i))
+}
+
+/// input and canon differ only inside block encodings (same chunk counts)?
+fn bitmap_only_blocks_differ(input: &[u8], canon: &[u8], off: usize) -> bool {
+	let (ri, ei) = match walk_bitmap(input, off) {
+		Some(x) => x,
+		None => return false,
+	};
+	let (rc, ec) = match walk_bitmap(canon, off) {
+		Some(x) => x,
+		None => return false,
+	};
+	if ri.len() != rc.len() || input[..off + 11] != canon[..off + 11] || input[ei..] != canon[ec..] {
+		return false;
+	}
+	ri.iter().zip(rc.iter()).all(|(a, c)| input[a.0] == canon[c.0])
+}
+
+impl Ty for BitmapSegment {
+	const NAME: &'static str = "BitmapSegment";
+	fn hash_hex(&self) -> Option<String> {
+		None
+	}
+	fn same(&self, d: &Self, _v: u32) -> bool {
+		self == d
+	}
+	fn describe(&self) -> String {
+		bitmap_tokens(self)
+	}
+	fn known_noncanon(input: &[u8], canon: &[u8], x: &Self, v: u32) -> Vec<String> {
+		// same value, other block encoding (mode / index order / repeated index)
+		let y: Result<BitmapSegment, _> = ser::deserialize(&mut &canon[..], ProtocolVersion(v), DeserializationMode::default());
+		match y {
+			Ok(y) if &y == x && bitmap_only_blocks_differ(input, canon, 0) => vec!["bitmapblock-noncanonical-accepted".to_string()],
+			_ => vec![],
+		}
+	}
+}
+
+impl Ty for OutputBitmapSegmentResponse {
+	const NAME: &'static str = "OutputBitmapSegmentResponse";
+	fn hash_hex(&self) -> Option<String> {
+		None
+	}
+	fn same(&self, d: &Self, _v: u32) -> bool {
+		self.block_hash == d.block_hash && self.segment == d.segment && self.output_root == d.output_root
+	}
+	fn describe(&self) -> String {
+		format!("{} {} {}", hex(self.block_hash.as_bytes()), bitmap_tokens(&self.segment), hex(self.output_root.as_bytes()))
+	}
+	fn known_noncanon(input: &[u8], canon: &[u8], x: &Self, v: u32) -> Vec<String> {
+		let y: Result<OutputBitmapSegmentResponse, _> = ser::deserialize(&mut &canon[..], ProtocolVersion(v), DeserializationMode::default());
+		match y {
+			Ok(y) if y.segment == x.segment && bitmap_only_blocks_differ(input, canon, 32) => vec!["bitmapblock-noncanonical-accepted".to_string()],
+			_ => vec![],
+		}
+	}
+}
+
+// ---------------------------------------------------------------------------------------------
+// handshake and sync messages (p2p/src/msg.rs, p2p/src/types.rs)
+
+const CAPS_ALL: u32 = 0x7f;
+
+fn addr_tokens(a: &PeerAddr) -> String {
+	match a.0 {
+		SocketAddr::V4(s) => format!("4 {} {}", hex(&s.ip().octets()), s.port()),
+		SocketAddr::V6(s) => {
+			let segs: Vec<u64> = s.ip().segments().iter().map(|x| *x as u64).collect();
+			format!("6 {} {} {} {}", nat_list(&segs), s.port(), s.flowinfo(), s.scope_id())
+		}
+	}
+}
+
+/// why does `d` (decoded) differ from `o` (written)? Ok(None): equal; Ok(Some(tag)): recorded finding
+fn addr_diff(o: &PeerAddr, d: &PeerAddr) -> Result<Option<&'static str>, ()> {
+	if o.0 == d.0 {
+		return Ok(None);
+	}
+	match (o.0, d.0) {
+		(SocketAddr::V6(a), SocketAddr::V4(b)) => {
+			if a.ip().to_ipv4_mapped() == Some(*b.ip()) && a.port() == b.port() {
+				Ok(Some("peeraddr-v6-mapped-to-v4"))
+			} else {
+				Err(())
+			}
+		}
+		(SocketAddr::V6(a), SocketAddr::V6(b)) => {
+			if a.ip() == b.ip() && a.port() == b.port() && b.flowinfo() == 0 && b.scope_id() == 0 {
+				Ok(Some("peeraddr-v6-flowinfo-scope-dropped"))
+			} else {
+				Err(())
+			}
+		}
+		_ => Err(()),
+	}
+}
+
+/// byte-level normaliser of one encoded `PeerAddr`: what a reader-then-writer makes of it
+fn norm_addr(inp: &[u8], i: &mut usize, out: &mut Vec<u8>, tags: &mut BTreeSet<&'static str>) -> bool {
+	if *i >= inp.len() {
+		return false;
+	}
+	let tag = inp[*i];
+	if tag == 0 {
+		if inp.len() < *i + 7 {
+			return false;
+		}
+		out.extend_from_slice(&inp[*i..*i + 7]);
+		*i += 7;
+		return true;
+	}
+	if inp.len() < *i + 19 {
+		return false;
+	}
+	let b = &inp[*i + 1..*i + 19];
+	if tag != 1 {
+		// tags 2..255 are refused since the repair of PeerAddr::read: accepting one is an oracle failure
+		return false;
+	}
+	// only IPv4-mapped addresses (::ffff:a.b.c.d) are turned into V4 since the repair
+	let mapped = b[..10].iter().all(|x| *x == 0) && b[10] == 0xff && b[11] == 0xff;
+	if mapped {
+		tags.insert("peeraddr-v6-mapped-to-v4");
+		out.push(0);
+		out.extend_from_slice(&b[12..16]);
+		out.extend_from_slice(&b[16..18]);
+	} else {
+		out.push(1);
+		out.extend_from_slice(b);
+	}
+	*i += 19;
+	true
+}
+
+fn norm_caps(inp: &[u8], i: &mut usize, out: &mut Vec<u8>, tags: &mut BTreeSet<&'static str>) -> bool {
+	if inp.len() < *i + 4 {
+		return false;
+	}
+	let c = u32::from_be_bytes([inp[*i], inp[*i + 1], inp[*i + 2], inp[*i + 3]]);
+	if c & !CAPS_ALL != 0 {
+		tags.insert("capabilities-unknown-bits-dropped");
+	}
+	out.extend_from_slice(&(c & CAPS_ALL).to_be_bytes());
+	*i += 4;
+	true
+}
+
+fn norm_copy(inp: &[u8], i: &mut usize, n: usize, out: &mut Vec<u8>) -> bool {
+	if inp.len() < *i + n {
+		return false;
+	}
+	out.extend_from_slice(&inp[*i..*i + n]);
+	*i += n;
+	true
+}
+
+fn norm_result(ok: bool, out: Vec<u8>, canon: &[u8], tags: BTreeSet<&'static str>) -> Vec<String> {
+	if ok && out[..] == canon[..] {
+		tags.iter().map(|t| t.to_string()).collect()
+	} else {
+		vec![]
+	}
+}
+
+impl Ty for PeerAddr {
+	const NAME: &'static str = "PeerAddr";
+	fn hash_hex(&self) -> Option<String> {
+		None
+	}
+	fn same(&self, d: &Self, _v: u32) -> bool {
+		// `PeerAddr: PartialEq` ignores the port of non-loopback addresses: compare the socket address
+		self.0 == d.0
+	}
+	fn describe(&self) -> String {
+		addr_tokens(self)
+	}
+	fn known_noncanon(input: &[u8], canon: &[u8], _x: &Self, _v: u32) -> Vec<String> {
+		let (mut i, mut out, mut tags) = (0, vec![], BTreeSet::new());
+		let ok = norm_addr(input, &mut i, &mut out, &mut tags) && i == input.len();
+		norm_result(ok, out, canon, tags)
+	}
+	fn known_differs(&self, d: &Self, _v: u32) -> Vec<String> {
+		match addr_diff(self, d) {
+			Ok(Some(t)) => vec![t.to_string()],
+			_ => vec![],
+		}
+	}
+}
+
+fn addrs_diff(o: &[PeerAddr], d: &[PeerAddr]) -> Vec<String> {
+	if o.len() != d.len() {
+		return vec![];
+	}
+	let mut tags = BTreeSet::new();
+	for (a, b) in o.iter().zip(d.iter()) {
+		match addr_diff(a, b) {
+			Ok(None) => {}
+			Ok(Some(t)) => {
+				tags.insert(t);
+			}
+			Err(()) => return vec![],
+		}
+	}
+	tags.iter().map(|t| t.to_string()).collect()
+}
+
+fn hand_rest_same(a: &Hand, d: &Hand) -> bool {
+	a.version == d.version
+		&& a.capabilities == d.capabilities
+		&& a.nonce == d.nonce
+		&& a.genesis == d.genesis
+		&& a.total_difficulty == d.total_difficulty
+		&& a.user_agent == d.user_agent
+}
+
+impl Ty for Hand {
+	const NAME: &'static str = "Hand";
+	fn hash_hex(&self) -> Option<String> {
+		None
+	}
+	fn same(&self, d: &Self, _v: u32) -> bool {
+		hand_rest_same(self, d) && self.sender_addr.0 == d.sender_addr.0 && self.receiver_addr.0 == d.receiver_addr.0
+	}
+	fn describe(&self) -> String {
+		format!(
+			"{} {} {} {} {} {} {} {}",
+			self.version.value(),
+			self.capabilities.bits(),
+			self.nonce,
+			hex(self.genesis.as_bytes()),
+			self.total_difficulty.to_num(),
+			addr_tokens(&self.sender_addr),
+			addr_tokens(&self.receiver_addr),
+			hex(self.user_agent.as_bytes())
+		)
+	}
+	fn known_noncanon(input: &[u8], canon: &[u8], _x: &Self, _v: u32) -> Vec<String> {
+		let (mut i, mut out, mut tags) = (0, vec![], BTreeSet::new());
+		let ok = norm_copy(input, &mut i, 4, &mut out)
+			&& norm_caps(input, &mut i, &mut out, &mut tags)
+			&& norm_copy(input, &mut i, 16, &mut out)
+			&& norm_addr(input, &mut i, &mut out, &mut tags)
+			&& norm_addr(input, &mut i, &mut out, &mut tags);
+		let rest = input.len() - i.min(input.len());
+		let ok = ok && norm_copy(input, &mut i, rest, &mut out);
+		norm_result(ok, out, canon, tags)
+	}
+	fn known_differs(&self, d: &Self, _v: u32) -> Vec<String> {
+		if !hand_rest_same(self, d) {
+			return vec![];
+		}
+		addrs_diff(&[self.sender_addr, self.receiver_addr], &[d.sender_addr, d.receiver_addr])
+	}
+}
+
+impl Ty for Shake {
+	const NAME: &'static str = "Shake";
+	fn hash_hex(&self) -> Option<String> {
+		None
+	}
+	fn same(&self, d: &Self, _v: u32) -> bool {
+		self.version == d.version
+			&& self.capabilities == d.capabilities
+			&& self.genesis == d.genesis
+			&& self.total_difficulty == d.total_difficulty
+			&& self.user_agent == d.user_agent
+	}
+	fn describe(&self) -> String {
+		format!(
+			"{} {} {} {} {}",
+			self.version.value(),
+			self.capabilities.bits(),
+			hex(self.genesis.as_bytes()),
+			self.total_difficulty.to_num(),
+			hex(self.user_agent.as_bytes())
+		)
+	}
+	fn known_noncanon(input: &[u8], canon: &[u8], _x: &Self, _v: u32) -> Vec<String> {
+		let (mut i, mut out, mut tags) = (0, vec![], BTreeSet::new());
+		let ok = norm_copy(input, &mut i, 4, &mut out) && norm_caps(input, &mut i, &mut out, &mut tags);
+		let rest = input.len() - i.min(input.len());
+		let ok = ok && norm_copy(input, &mut i, rest, &mut out);
+		norm_result(ok, out, canon, tags)
+	}
+}
+
+impl Ty for GetPeerAddrs {
+	const NAME: &'static str = "GetPeerAddrs";
+	fn hash_hex(&self) -> Option<String> {
+		None
+	}
+	fn same(&self, d: &Self, _v: u32) -> bool {
+		self.capabilities == d.capabilities
+	}
+	fn describe(&self) -> String {
+		self.capabilities.bits().to_string()
+	}
+	fn known_noncanon(input: &[u8], canon: &[u8], _x: &Self, _v: u32) -> Vec<String> {
+		let (mut i, mut out, mut tags) = (0, vec![], BTreeSet::new());
+		let ok = norm_caps(input, &mut i, &mut out, &mut tags) && i == input.len();
+		norm_result(ok, out, canon, tags)
+	}
+}
+
+impl Ty for PeerAddrs {
+	const NAME: &'static str = "PeerAddrs";
+	fn hash_hex(&self) -> Option<String> {
+		None
+	}
+	fn same(&self, d: &Self, _v: u32) -> bool {
+		self.peers.len() == d.peers.len() && self.peers.iter().zip(d.peers.iter()).all(|(a, b)| a.0 == b.0)
+	}
+	fn describe(&self) -> String {
+		let mut s = self.peers.len().to_string();
+		for p in &self.peers {
+			s.push(' ');
+			s.push_str(&addr_tokens(p));
+		}
+		s
+	}
+	fn known_noncanon(input: &[u8], canon: &[u8], x: &Self, _v: u32) -> Vec<String> {
+		let (mut i, mut out, mut tags) = (0, vec![], BTreeSet::new());
+		let mut ok = norm_copy(input, &mut i, 4, &mut out);
+		for _ in 0..x.peers.len() {
+			ok = ok && norm_addr(input, &mut i, &mut out, &mut tags);
+		}
+		norm_result(ok && i == input.len(), out, canon, tags)
+	}
+	fn known_differs(&self, d: &Self, _v: u32) -> Vec<String> {
+		addrs_diff(&self.peers, &d.peers)
+	}
+}
+
+impl Ty for PeerError {
+	const NAME: &'static str = "PeerError";
+	fn hash_hex(&self) -> Option<String> {
+		None
+	}
+	fn same(&self, d: &Self, _v: u32) -> bool {
+		self.code == d.code && self.message == d.message
+	}
+	fn describe(&self) -> String {
+		format!("{} {}", self.code, hex(self.message.as_bytes()))
+	}
+}
+
+impl Ty for Locator {
+	const NAME: &'static str = "Locator";
+	fn hash_hex(&self) -> Option<String> {
+		None
+	}
+	fn same(&self, d: &Self, _v: u32) -> bool {
+		self.hashes == d.hashes
+	}
+	fn describe(&self) -> String {
+		hashes_tokens(&self.hashes)
+	}
+}
+
+impl Ty for Ping {
+	const NAME: &'static str = "Ping";
+	fn hash_hex(&self) -> Option<String> {
+		None
+	}
+	fn same(&self, d: &Self, _v: u32) -> bool {
+		self.total_difficulty == d.total_difficulty && self.height == d.height
+	}
+	fn describe(&self) -> String {
+		format!("{} {}", self.total_difficulty.to_num(), self.height)
+	}
+}
+
+impl Ty for Pong {
+	const NAME: &'static str = "Pong";
+	fn hash_hex(&self) -> Option<String> {
+		None
+	}
+	fn same(&self, d: &Self, _v: u32) -> bool {
+		self.total_difficulty == d.total_difficulty && self.height == d.height
+	}
+	fn describe(&self) -> String {
+		format!("{} {}", self.total_difficulty.to_num(), self.height)
+	}
+}
+
+impl Ty for BanReason {
+	const NAME: &'static str = "BanReason";
+	fn hash_hex(&self) -> Option<String> {
+		None
+	}
+	fn same(&self, d: &Self, _v: u32) -> bool {
+		self.ban_reason == d.ban_reason
+	}
+	fn describe(&self) -> String {
+		(self.ban_reason as i32).to_string()
+	}
+	fn known_noncanon(input: &[u8], canon: &[u8], _x: &Self, _v: u32) -> Vec<String> {
+		if input.len() < 4 && canon == [0u8, 0, 0, 0] {
+			vec!["banreason-short-read-as-none".to_string()]
+		} else {
+			vec![]
+		}
+	}
+}
+
+impl Ty for TxHashSetRequest {
+	const NAME: &'static str = "TxHashSetRequest";
+	fn hash_hex(&self) -> Option<String> {
+		None
+	}
+	fn same(&self, d: &Self, _v: u32) -> bool {
+		self.hash == d.hash && self.height == d.height
+	}
+	fn describe(&self) -> String {
+		format!("{} {}", hex(self.hash.as_bytes()), self.height)
+	}
+}
+
+impl Ty for TxHashSetArchive {
+	const NAME: &'static str = "TxHashSetArchive";
+	fn hash_hex(&self) -> Option<String> {
+		None
+	}
+	fn same(&self, d: &Self, _v: u32) -> bool {
+		self.hash == d.hash && self.height == d.height && self.bytes == d.bytes
+	}
+	fn describe(&self) -> String {
+		format!("{} {} {}", hex(self.hash.as_bytes()), self.height, self.bytes)
+	}
+}
+
+impl Ty for SegmentRequest {
+	const NAME: &'static str = "SegmentRequest";
+	fn hash_hex(&self) -> Option<String> {
+		None
+	}
+	fn same(&self, d: &Self, _v: u32) -> bool {
+		self.block_hash == d.block_hash && self.identifier == d.identifier
+	}
+	fn describe(&self) -> String {
+		format!("{} {} {}", hex(self.block_hash.as_bytes()), self.identifier.height, self.identifier.idx)
+	}
+}
+
+// ---------------------------------------------------------------------------------------------
+// sections: segments
+
+/// strictly increasing 0-based positions
+fn gen_positions(rng: &mut Rng, n: usize, style: u64) -> Vec<u64> {
+	let mut v = Vec::with_capacity(n);
+	let mut cur: u64 = match style % 4 {
+		0 => 0,
+		1 => rng.below(1000),
+		2 => 1u64 << 40,
+		_ => u64::MAX - 1 - (4 * n as u64 + 4),
+	};
+	for _ in 0..n {
+		v.push(cur);
+		cur += 1 + if style % 4 == 3 { rng.below(3) } else { rng.below(7) };
+	}
+	v
+}
+
+fn gen_seg_id(rng: &mut Rng) -> SegmentIdentifier {
+	SegmentIdentifier {
+		height: *rng.pick(&[0u8, 1, 9, 11, 13, 63, 64, 255]),
+		idx: match rng.below(4) {
+			0 => 0,
+			1 => rng.below(100),
+			2 => 1u64 << 40,
+			_ => u64::MAX,
+		},
+	}
+}
+
+fn gen_segment<T: Item>(rng: &mut Rng, nh: usize, nl: usize, np: usize, style: u64) -> Segment<T> {
+	let id = gen_seg_id(rng);
+	let hp = gen_positions(rng, nh, style);
+	let hs: Vec<Hash> = (0..nh).map(|_| hash32(rng)).collect();
+	let lp = gen_positions(rng, nl, style / 4);
+	let ld: Vec<T> = (0..nl).map(|i| T::gen(rng, i)).collect();
+	let pf: Vec<Hash> = (0..np).map(|_| hash32(rng)).collect();
+	Segment::from_parts(id, hp, hs, lp, ld, mk_proof(&pf))
+}
+
+/// a segment encoding in parts so that positions / counts can be perturbed
+struct SegParts {
+	prefix: Vec<u8>,
+	id: Vec<u8>,
+	n_hashes: u64,
+	hash_pos: Vec<u64>, // 1-based wire values
+	hashes: Vec<Vec<u8>>,
+	n_leaves: u64,
+	leaf_pos: Vec<u64>,
+	leaves: Vec<Vec<u8>>,
+	n_proof: u64,
+	proof: Vec<Vec<u8>>,
+	suffix: Vec<u8>,
+}
+
+impl SegParts {
+	fn of<T: Item>(s: &Segment<T>, v: u32, prefix: Vec<u8>, suffix: Vec<u8>) -> SegParts {
+		let (id, hp, hs, lp, ld, pf) = s.clone().parts();
+		let pfh = proof_hashes(&pf);
+		SegParts {
+			prefix,
+			id: enc_at(&id, v).unwrap(),
+			n_hashes: hs.len() as u64,
+			hash_pos: hp.iter().map(|p| p + 1).collect(),
+			hashes: hs.iter().map(|h| h.as_bytes().to_vec()).collect(),
+			n_leaves: ld.len() as u64,
+			leaf_pos: lp.iter().map(|p| p + 1).collect(),
+			leaves: ld.iter().map(|d| enc_at(d, v).unwrap()).collect(),
+			n_proof: pfh.len() as u64,
+			proof: pfh.iter().map(|h| h.as_bytes().to_vec()).collect(),
+			suffix,
+		}
+	}
+	fn bytes(&self) -> Vec<u8> {
+		let mut b = self.prefix.clone();
+		b.extend_from_slice(&self.id);
+		b.extend_from_slice(&self.n_hashes.to_be_bytes());
+		for p in &self.hash_pos {
+			b.extend_from_slice(&p.to_be_bytes());
+		}
+		for h in &self.hashes {
+			b.extend_from_slice(h);
+		}
+		b.extend_from_slice(&self.n_leaves.to_be_bytes());
+		for p in &self.leaf_pos {
+			b.extend_from_slice(&p.to_be_bytes());
+		}
+		for h in &self.leaves {
+			b.extend_from_slice(h);
+		}
+		b.extend_from_slice(&self.n_proof.to_be_bytes());
+		for h in &self.proof {
+			b.extend_from_slice(h);
+		}
+		b.extend_from_slice(&self.suffix);
+		b
+	}
+	fn dup(&self) -> SegParts {
+		SegParts {
+			prefix: self.prefix.clone(),
+			id: self.id.clone(),
+			n_hashes: self.n_hashes,
+			hash_pos: self.hash_pos.clone(),
+			hashes: self.hashes.clone(),
+			n_leaves: self.n_leaves,
+			leaf_pos: self.leaf_pos.clone(),
+			leaves: self.leaves.clone(),
+			n_proof: self.n_proof,
+			proof: self.proof.clone(),
+			suffix: self.suffix.clone(),
+		}
+	}
+}
+
+fn pos_mut(q: &mut SegParts, which: usize) -> &mut Vec<u64> {
+	if which == 0 {
+		&mut q.hash_pos
+	} else {
+		&mut q.leaf_pos
+	}
+}
+
+/// perturbations touching the canonical-form rules of a segment encoding
+fn seg_mutations<T: Ty>(cx: &mut Ctx, v: u32, p: &SegParts) {
+	let nrd = true;
+	for which in 0..2 {
+		let n = if which == 0 { p.hash_pos.len() } else { p.leaf_pos.len() };
+		if n >= 2 {
+			let i = cx.rng.below(n as u64 - 1) as usize;
+			// swap neighbours -> not increasing
+			let mut q = p.dup();
+			pos_mut(&mut q, which).swap(i, i + 1);
+			dec_case::<T>(cx, v, nrd, 'A', &q.bytes(), None, Expect::Reject, "positions-unsorted");
+			// equal neighbours
+			let mut q = p.dup();
+			{
+				let pv = pos_mut(&mut q, which);
+				pv[i + 1] = pv[i];
+			}
+			dec_case::<T>(cx, v, nrd, 'A', &q.bytes(), None, Expect::Reject, "positions-duplicate");
+			// last below first
+			let mut q = p.dup();
+			{
+				let pv = pos_mut(&mut q, which);
+				pv[n - 1] = pv[0].saturating_sub(1);
+			}
+			dec_case::<T>(cx, v, nrd, 'A', &q.bytes(), None, Expect::Reject, "positions-unsorted");
+		}
+		if n >= 1 {
+			// a zero on the wire (positions are 1-based there)
+			let mut q = p.dup();
+			pos_mut(&mut q, which)[0] = 0;
+			dec_case::<T>(cx, v, nrd, 'A', &q.bytes(), None, Expect::Reject, "position-zero");
+			// the largest wire value is fine as the last one
+			let mut q = p.dup();
+			pos_mut(&mut q, which)[n - 1] = u64::MAX;
+			dec_case::<T>(cx, v, nrd, 'A', &q.bytes(), None, Expect::Any, "position-max");
+		}
+	}
+	// counts: +-1, the cap and beyond
+	for which in 0..3 {
+		let cur = [p.n_hashes, p.n_leaves, p.n_proof][which];
+		let mut vals = vec![cur + 1, 1_000_000, 1_000_001, u64::MAX, 1u64 << 32];
+		if cur > 0 {
+			vals.push(cur - 1);
+		}
+		for c in vals {
+			let mut q = p.dup();
+			match which {
+				0 => q.n_hashes = c,
+				1 => q.n_leaves = c,
+				_ => q.n_proof = c,
+			}
+			let exp = if c > 1_000_000 { Expect::Reject } else { Expect::Any };
+			dec_case::<T>(cx, v, nrd, 'A', &q.bytes(), None, exp, if c > 1_000_000 { "count-over-cap" } else { "count-vs-content" });
+		}
+	}
+	// a position list longer / shorter than the count says
+	if !p.hash_pos.is_empty() {
+		let mut q = p.dup();
+		q.hash_pos.pop();
+		dec_case::<T>(cx, v, nrd, 'A', &q.bytes(), None, Expect::Any, "count-vs-content");
+	}
+}
+
+fn segments_of<T: Item>(cx: &mut Ctx, n: usize, big: usize)
+where
+	Segment<T>: Ty,
+{
+	for i in 0..n {
+		let (nh, nl, np) = match i % 8 {
+			0 => (0, 0, 0),
+			1 => (1, 1, 1),
+			2 => (0, 2, 3),
+			3 => (5, 0, 0),
+			4 => (cx.rng.below(12) as usize, cx.rng.below(20) as usize, cx.rng.below(10) as usize),
+			5 => (2, 8, 2),
+			6 => (40, if T::SEG_NAME == "RangeProofSegment" { 12 } else { 64 }, 20),
+			_ => (3, big, 7),
+		};
+		let style = cx.rng.next();
+		let s: Segment<T> = gen_segment(&mut cx.rng, nh, nl, np, style);
+		cx.stat(format!(
+			"{} hashes {} leaves {}",
+			T::SEG_NAME,
+			match nh { 0 => "0", 1..=5 => "1-5", _ => ">5" },
+			match nl { 0 => "0", 1..=8 => "1-8", 9..=64 => "9-64", _ => ">64" }
+		));
+		if nl > 64 {
+			// big segments: one decode per wire format, no perturbations (line size)
+			for v in [1u32, 1000].iter() {
+				let b = enc_at(&s, *v).unwrap();
+				dec_case::<Segment<T>>(cx, *v, true, 'A', &b, Some(&s), Expect::Valid, "valid");
+			}
+			continue;
+		}
+		roundtrip_all(cx, 'A', true, &s, nl <= 8);
+		for v in [1u32, 2, 1000].iter() {
+			let p = SegParts::of(&s, *v, vec![], vec![]);
+			let bytes = p.bytes();
+			if bytes != enc_at(&s, *v).unwrap() {
+				cx.out.raw(&format!("#ORACLE-FAIL C10 {} v{}: encoding is not id, count, positions, hashes, count, positions, leaves, proof: {}", T::SEG_NAME, v, hex(&bytes)));
+			}
+			seg_mutations::<Segment<T>>(cx, *v, &p);
+			if nl <= 12 {
+				generic_mutations::<Segment<T>>(cx, *v, true, 'A', &bytes, 6, 10);
+			}
+			if T::SEG_NAME != "OutputSegment" && i % 2 == 1 {
+				let resp = SegmentResponse { block_hash: hash32(&mut cx.rng), segment: s.clone() };
+				if *v == 1 {
+					roundtrip_all(cx, 'A', true, &resp, nl <= 2);
+				}
+				let pr = SegParts::of(&s, *v, resp.block_hash.as_bytes().to_vec(), vec![]);
+				seg_mutations::<SegmentResponse<T>>(cx, *v, &pr);
+			}
+		}
+	}
+}
+
+fn segments(cx: &mut Ctx) {
+	cx.out.line("ser const max_segment_read_items", "1000000");
+	// identifiers and proofs on their own
+	for _ in 0..(if cx.thorough { 200 } else { 40 }) {
+		let id = gen_seg_id(&mut cx.rng);
+		roundtrip_all(cx, 'A', false, &id, true);
+		let b = enc_at(&id, 1).unwrap();
+		generic_mutations::<SegmentIdentifier>(cx, 1, false, 'A', &b, 9, 3);
+		let np = *cx.rng.pick(&[0usize, 1, 2, 10, 33]);
+		let hs: Vec<Hash> = (0..np).map(|_| hash32(&mut cx.rng)).collect();
+		let pf = mk_proof(&hs);
+		roundtrip_all(cx, 'A', false, &pf, true);
+		let pb = enc_at(&pf, 1).unwrap();
+		for c in [np as u64 + 1, 1_000_000, 1_000_001, u64::MAX].iter() {
+			let mut m = pb.clone();
+			m[..8].copy_from_slice(&c.to_be_bytes());
+			let exp = if *c > 1_000_000 { Expect::Reject } else { Expect::Any };
+			dec_case::<SegmentProof>(cx, 1, false, 'A', &m, None, exp, "count-over-cap");
+		}
+	}
+	let n = if cx.thorough { 48 } else { 16 };
+	let big = if cx.thorough { 2000 } else { 300 };
+	segments_of::<OutputIdentifier>(cx, n, big);
+	segments_of::<TxKernel>(cx, n, big / 2);
+	segments_of::<RangeProof>(cx, n, 20);
+	// OutputSegmentResponse
+	for i in 0..(if cx.thorough { 24 } else { 8 }) {
+		let style = cx.rng.next();
+		let s: Segment<OutputIdentifier> = gen_segment(&mut cx.rng, i % 4, 1 + i % 5, i % 3, style);
+		let r = OutputSegmentResponse {
+			response: SegmentResponse { block_hash: hash32(&mut cx.rng), segment: s.clone() },
+			output_bitmap_root: hash32(&mut cx.rng),
+		};
+		roundtrip_all(cx, 'A', false, &r, true);
+		let p = SegParts::of(&s, 1, r.response.block_hash.as_bytes().to_vec(), r.output_bitmap_root.as_bytes().to_vec());
+		seg_mutations::<OutputSegmentResponse>(cx, 1, &p);
+		generic_mutations::<OutputSegmentResponse>(cx, 1, false, 'A', &p.bytes(), 8, 8);
+	}
+	// a leaf position of u64::MAX cannot be written: `1 + pos` wraps to 0 (release arithmetic), which the reader refuses
+	{
+		let s: Segment<OutputIdentifier> = Segment::from_parts(
+			SegmentIdentifier { height: 0, idx: 0 },
+			vec![],
+			vec![],
+			vec![u64::MAX],
+			vec![OutputIdentifier::gen(&mut cx.rng, 0)],
+			mk_proof(&[]),
+		);
+		if let Ok(Ok(b)) = catch(AssertUnwindSafe(|| enc_at(&s, 1))) {
+			cx.out.line(&format!("ser enc OutputSegment 1 A {}", seg_tokens(&s)), &format!("{} none", hex(&b)));
+			dec_case::<Segment<OutputIdentifier>>(cx, 1, false, 'A', &b, None, Expect::Any, "pos-u64max-wraps");
+		}
+	}
+}
+
+// ---------------------------------------------------------------------------------------------
+// sections: bitmap segments
+
+/// bits of a block with `n_chunks` chunks and roughly the requested number of set bits
+fn gen_block_bits(rng: &mut Rng, n_chunks: usize, kind: u64) -> BlockBits {
+	let nbits = n_chunks * 1024;
+	let target: usize = match kind % 12 {
+		0 => 0,
+		1 => 1,
+		2 => nbits,
+		3 => nbits.saturating_sub(1),
+		4 => 4095.min(nbits),
+		5 => 4096.min(nbits),
+		6 => 4097.min(nbits),
+		7 => nbits.saturating_sub(4095),
+		8 => nbits.saturating_sub(4096),
+		9 => nbits.saturating_sub(4097),
+		10 => nbits / 2,
+		_ => rng.below(nbits as u64 + 1) as usize,
+	};
+	let mut bits = vec![false; nbits];
+	// choose `target` distinct positions: partial Fisher-Yates over indices
+	if target * 2 <= nbits {
+		let mut idx: Vec<u32> = (0..nbits as u32).collect();
+		for i in 0..target {
+			let j = i + rng.below((nbits - i) as u64) as usize;
+			idx.swap(i, j);
+			bits[idx[i] as usize] = true;
+		}
+	} else {
+		for b in bits.iter_mut() {
+			*b = true;
+		}
+		let clear = nbits - target;
+		let mut idx: Vec<u32> = (0..nbits as u32).collect();
+		for i in 0..clear {
+			let j = i + rng.below((nbits - i) as u64) as usize;
+			idx.swap(i, j);
+			bits[idx[i] as usize] = false;
+		}
+	}
+	BlockBits(bits)
+}
+
+fn bitmap_segment_from(id: SegmentIdentifier, blocks: &[BlockBits], proof: &[Hash]) -> Option<BitmapSegment> {
+	let mut chunks = vec![];
+	for b in blocks {
+		for c in b.0.chunks(1024) {
+			let mut ch = BitmapChunk::new();
+			for (i, v) in c.iter().enumerate() {
+				if *v {
+					ch.set(i as u64, true);
+				}
+			}
+			chunks.push(ch);
+		}
+	}
+	let lp: Vec<u64> = (0..chunks.len() as u64).map(|i| 2 * i + 1).collect();
+	let pf = mk_proof(proof);
+	catch(AssertUnwindSafe(move || BitmapSegment::from(Segment::from_parts(id, vec![], vec![], lp, chunks, pf)))).ok()
+}
+
+/// hand-assembled encoding: id, block count, blocks (each in the given mode / order), proof
+fn bitmap_bytes(id: &SegmentIdentifier, n_blocks: u16, blocks: &[(BlockBits, u8, u8)], proof: &[Hash]) -> Vec<u8> {
+	let mut b = vec![id.height];
+	b.extend_from_slice(&id.idx.to_be_bytes());
+	b.extend_from_slice(&n_blocks.to_be_bytes());
+	for (bits, mode, order) in blocks {
+		b.extend_from_slice(&bits.encode(*mode, *order));
+	}
+	b.extend_from_slice(&(proof.len() as u64).to_be_bytes());
+	for h in proof {
+		b.extend_from_slice(h.as_bytes());
+	}
+	b
+}
+
+fn bitmaps(cx: &mut Ctx) {
+	let n = if cx.thorough { 120 } else { 36 };
+	for i in 0..n {
+		// (height, chunks): one block unless stated
+		let (h, n_chunks): (u8, usize) = match i % 12 {
+			0 => (0, 1),
+			1 => (3, 8),
+			2 => (3, 5),
+			3 => (6, 64),
+			4 => (4, 16),
+			5 => (7, 65),
+			6 => (7, 128),
+			7 => (13, 8),
+			8 => (9, 8),
+			9 => (5, 32),
+			10 => (2, 4),
+			_ => (8, 1 + cx.rng.below(if i < 12 { 100 } else { 60 }) as usize),
+		};
+		let idx = match i % 3 {
+			0 => 0,
+			1 => cx.rng.below(1000),
+			_ => ((1u64 << 63) >> h) - 1, // the last identifier whose leaves stay below 2^63
+		};
+		let id = SegmentIdentifier { height: h, idx };
+		let mut blocks = vec![];
+		let mut left = n_chunks;
+		let kind0 = (i / 12) as u64 + cx.rng.below(3) * 4;
+		while left > 0 {
+			let c = left.min(64);
+			// full 64-chunk blocks are expensive for the model: keep most of them sparse
+			let kind = if c == 64 && blocks.len() > 0 { 1 } else { kind0 + blocks.len() as u64 };
+			blocks.push(gen_block_bits(&mut cx.rng, c, kind));
+			left -= c;
+		}
+		let np = (i % 4) as usize;
+		let proof: Vec<Hash> = (0..np).map(|_| hash32(&mut cx.rng)).collect();
+		for b in &blocks {
+			let pos = b.0.iter().filter(|x| **x).count();
+			cx.stat(format!(
+				"BitmapBlock chunks {} mode {} set-bits {}",
+				match b.0.len() / 1024 { 1 => "1", 2..=7 => "2-7", 8..=63 => "8-63", _ => "64" },
+				["raw", "positive", "negative"][b.canonical_mode() as usize],
+				match pos { 0 => "0".to_string(), 4095 => "4095".to_string(), 4096 => "4096".to_string(), 4097 => "4097".to_string(), x if x == b.0.len() => "all".to_string(), x if x + 4095 == b.0.len() => "all-4095".to_string(), x if x + 4096 == b.0.len() => "all-4096".to_string(), _ => "other".to_string() }
+			));
+		}
+		let seg = match bitmap_segment_from(id, &blocks, &proof) {
+			Some(s) => s,
+			None => continue,
+		};
+		// the writer's bytes are the harness' own canonical assembly
+		let canon: Vec<(BlockBits, u8, u8)> = blocks.iter().map(|b| (b.clone(), b.canonical_mode(), 0)).collect();
+		let expect = bitmap_bytes(&id, blocks.len() as u16, &canon, &proof);
+		let real = enc_at(&seg, 1).unwrap();
+		if real != expect {
+			cx.out.raw(&format!("#ORACLE-FAIL C10 BitmapSegment: the writer does not follow the threshold rule (positive < 4096 set, negative < 4096 clear, else raw): h={} idx={} chunks={}", h, idx, n_chunks));
+		}
+		let small = n_chunks <= 16;
+		if n_chunks >= 64 {
+			// blocks of 64 chunks are expensive for the model (65536-bit numbers): the first round only,
+			// one decode and one encode each
+			if i < 12 {
+				dec_case::<BitmapSegment>(cx, 1, false, 'A', &real, Some(&seg), Expect::Valid, "valid");
+				let _ = enc_case(cx, 3, 'A', &seg);
+			}
+			continue;
+		}
+		roundtrip_all(cx, 'A', false, &seg, small);
+		if i % 4 == 0 {
+			let r = OutputBitmapSegmentResponse { block_hash: hash32(&mut cx.rng), segment: seg.clone(), output_root: hash32(&mut cx.rng) };
+			for v in [1u32, 1000].iter() {
+				let b = enc_at(&r, *v).unwrap();
+				dec_case::<OutputBitmapSegmentResponse>(cx, *v, false, 'A', &b, Some(&r), Expect::Valid, "valid");
+			}
+			if small {
+				let _ = enc_case(cx, 2, 'A', &r);
+			}
+		}
+		if !small {
+			continue;
+		}
+		// the same value in the other encodings: accepted by the reader, never produced by the writer
+		for (bi, b) in blocks.iter().enumerate() {
+			for (mode, order) in [(0u8, 0u8), (1, 0), (2, 0), (1, 1), (2, 1), (1, 2), (2, 2)].iter() {
+				let n_idx = b.0.iter().filter(|x| **x == (*mode == 1)).count();
+				if *mode != 0 && n_idx + 1 > 65535 {
+					continue;
+				}
+				if *mode == b.canonical_mode() && *order == 0 {
+					continue;
+				}
+				let mut alt = canon.clone();
+				alt[bi] = (b.clone(), *mode, *order);
+				let bytes = bitmap_bytes(&id, blocks.len() as u16, &alt, &proof);
+				if bytes == expect {
+					continue;
+				}
+				let what = match (*mode, *order) {
+					(_, 1) => "block-indices-descending",
+					(_, 2) => "block-index-repeated",
+					(0, _) => "block-raw-against-threshold",
+					(1, _) => "block-positive-against-threshold",
+					_ => "block-negative-against-threshold",
+				};
+				dec_case::<BitmapSegment>(cx, 1, false, 'A', &bytes, None, Expect::Any, what);
+			}
+		}
+		// refusals
+		let rej = |cx: &mut Ctx, bytes: Vec<u8>, what: &str| {
+			dec_case::<BitmapSegment>(cx, 1, false, 'A', &bytes, None, Expect::Reject, what);
+		};
+		let base = expect.clone();
+		for m in [3u8, 4, 128, 255].iter() {
+			let mut b = base.clone();
+			b[12] = *m; // mode byte of the first block
+			rej(cx, b, "unknown-block-mode");
+		}
+		for c in [65u8, 66, 200, 255].iter() {
+			let mut b = base.clone();
+			b[11] = *c; // chunk count of the first block
+			rej(cx, b, "block-chunks-over-64");
+		}
+		{
+			let mut b = base.clone();
+			b[9] = 0;
+			b[10] = 0;
+			rej(cx, b, "zero-blocks");
+			let maxb = ((1usize << h) + 63) / 64;
+			let mut b = base.clone();
+			b[9..11].copy_from_slice(&((maxb + 1) as u16).to_be_bytes());
+			rej(cx, b, "blocks-over-identifier");
+			let mut b = base.clone();
+			b[9..11].copy_from_slice(&0xffffu16.to_be_bytes());
+			rej(cx, b, "blocks-over-identifier");
+		}
+		for hh in [14u8, 63, 64, 255].iter() {
+			let mut b = base.clone();
+			b[0] = *hh;
+			rej(cx, b, "height-over-13");
+		}
+		if h > 0 {
+			// idx * 2^h overflows
+			let mut b = base.clone();
+			b[1..9].copy_from_slice(&u64::MAX.to_be_bytes());
+			rej(cx, b, "leaf-offset-overflow");
+		}
+		{
+			// offset + n_chunks - 1 overflows: last admissible idx with every chunk present
+			let id2 = SegmentIdentifier { height: h, idx: u64::MAX >> h };
+			let bytes = bitmap_bytes(&id2, blocks.len() as u16, &canon, &proof);
+			dec_case::<BitmapSegment>(cx, 1, false, 'A', &bytes, None, Expect::Reject, "leaf-index-over-2^63");
+			// leaf indices from 2^63 on have no MMR position: refused
+			let id3 = SegmentIdentifier { height: h, idx: (1u64 << 63) >> h };
+			let bytes = bitmap_bytes(&id3, blocks.len() as u16, &canon, &proof);
+			dec_case::<BitmapSegment>(cx, 1, false, 'A', &bytes, None, Expect::Reject, "leaf-index-over-2^63");
+			if h > 0 && (1usize << h) <= 16 {
+				// every chunk present, the last leaf index is 2^63 - 1: still fine
+				let id4 = SegmentIdentifier { height: h, idx: ((1u64 << 63) >> h) - 1 };
+				let full: Vec<(BlockBits, u8, u8)> = {
+					let mut v = vec![];
+					let mut left = 1usize << h;
+					while left > 0 && v.len() < 2 {
+						let c = left.min(64);
+						v.push((gen_block_bits(&mut cx.rng, c, 1), 1u8, 0u8));
+						left -= c;
+					}
+					v
+				};
+				let bytes = bitmap_bytes(&id4, full.len() as u16, &full, &proof);
+				if dec_case::<BitmapSegment>(cx, 1, false, 'A', &bytes, None, Expect::Any, "leaf-index-last-below-2^63").is_none() {
+					cx.out.raw(&format!("#ORACLE-FAIL C10 BitmapSegment: a full segment whose last leaf index is 2^63-1 is refused: {}", hex(&bytes)));
+				}
+			}
+		}
+		// an index at / beyond the block's bit length
+		{
+			let b0 = &blocks[0];
+			let nbits = b0.0.len();
+			if nbits < 65536 {
+				let mut e = vec![(nbits / 1024) as u8, 1, 0, 1];
+				e.extend_from_slice(&(nbits as u16).to_be_bytes());
+				let mut bytes = base[..11].to_vec();
+				bytes.extend_from_slice(&e);
+				for (bits, mode, order) in canon.iter().skip(1) {
+					bytes.extend_from_slice(&bits.encode(*mode, *order));
+				}
+				bytes.extend_from_slice(&(proof.len() as u64).to_be_bytes());
+				for hsh in &proof {
+					bytes.extend_from_slice(hsh.as_bytes());
+				}
+				rej(cx, bytes, "block-index-out-of-range");
+			}
+		}
+		// more chunks than the identifier's height allows / empty last block / short non-final block
+		{
+			let over = (1usize << h) + 1;
+			if over <= 64 {
+				let bb = gen_block_bits(&mut cx.rng, over, 1);
+				let bytes = bitmap_bytes(&id, 1, &[(bb, 1, 0)], &proof);
+				rej(cx, bytes, "chunks-over-identifier");
+			}
+			let empty = BlockBits(vec![]);
+			let mut with_empty = canon.clone();
+			with_empty.push((empty, 1, 0));
+			if blocks.len() + 1 <= ((1usize << h) + 63) / 64 {
+				let bytes = bitmap_bytes(&id, blocks.len() as u16 + 1, &with_empty, &proof);
+				rej(cx, bytes, "empty-last-block");
+			}
+			let only_empty = bitmap_bytes(&id, 1, &[(BlockBits(vec![]), 1, 0)], &proof);
+			rej(cx, only_empty, "empty-last-block");
+		}
+		generic_mutations::<BitmapSegment>(cx, 1, false, 'A', &base, 6, 12);
+	}
+	// two blocks where the first is not full
+	{
+		let id = SegmentIdentifier { height: 7, idx: 1 };
+		let b1 = gen_block_bits(&mut cx.rng, 63, 1);
+		let b2 = gen_block_bits(&mut cx.rng, 2, 1);
+		let bytes = bitmap_bytes(&id, 2, &[(b1, 1, 0), (b2, 1, 0)], &[]);
+		dec_case::<BitmapSegment>(cx, 1, false, 'A', &bytes, None, Expect::Reject, "short-non-final-block");
+	}
+	// a segment without chunks writes a block count of 0, which its own reader refuses
+	{
+		let id = SegmentIdentifier { height: 3, idx: 0 };
+		if let Some(seg) = bitmap_segment_from(id, &[], &[]) {
+			let b = enc_at(&seg, 1).unwrap();
+			let r: Result<BitmapSegment, _> = ser::deserialize(&mut &b[..], ProtocolVersion(1), DeserializationMode::default());
+			if r.is_err() {
+				cx.out.raw(&format!("#KNOWN-PROBE C10 bitmapsegment-empty-own-encoding-refused: BitmapSegment::from(a segment without leaves) writes {} (block count 0), which BitmapSegment::read refuses", hex(&b)));
+			}
+		}
+	}
+}
+
+// ---------------------------------------------------------------------------------------------
+// sections: messages
+
+const ALL_TYPES: [Type; 29] = [
+	Type::Error, Type::Hand, Type::Shake, Type::Ping, Type::Pong, Type::GetPeerAddrs, Type::PeerAddrs,
+	Type::GetHeaders, Type::Header, Type::Headers, Type::GetBlock, Type::Block, Type::GetCompactBlock,
+	Type::CompactBlock, Type::StemTransaction, Type::Transaction, Type::TxHashSetRequest,
+	Type::TxHashSetArchive, Type::BanReason, Type::GetTransaction, Type::TransactionKernel,
+	Type::GetOutputBitmapSegment, Type::OutputBitmapSegment, Type::GetOutputSegment, Type::OutputSegment,
+	Type::GetRangeProofSegment, Type::RangeProofSegment, Type::GetKernelSegment, Type::KernelSegment,
+];
+
+const ALL_REASONS: [ReasonForBan; 8] = [
+	ReasonForBan::None, ReasonForBan::BadBlock, ReasonForBan::BadCompactBlock, ReasonForBan::BadBlockHeader,
+	ReasonForBan::BadTxHashSet, ReasonForBan::ManualBan, ReasonForBan::FraudHeight, ReasonForBan::BadHandshake,
+];
+
+/// harness-side copy of `max_msg_size` (private in p2p/src/msg.rs), used to aim lengths at the
+/// limit and for the Rust-side oracle; the model's table is regenerated from the source
+fn max_msg_size_copy(t: u8, mbw: u64) -> u64 {
+	let mbs = mbw / 21 * 708;
+	match t {
+		0 => 0,
+		1 => 128,
+		2 => 88,
+		3 | 4 => 16,
+		5 => 4,
+		6 => 4 + 19 * 256,
+		7 => 1 + 32 * 20,
+		8 => 365,
+		9 => 2 + 365 * 512,
+		10 | 12 | 19 | 20 => 32,
+		11 | 14 | 15 => mbs,
+		13 => mbs / 10,
+		16 => 40,
+		17 | 18 => 64,
+		21 | 23 | 25 | 27 => 41,
+		22 | 24 | 26 | 28 => 2 * mbs,
+		_ => mbs,
+	}
+}
+
+fn hdr_line(cx: &mut Ctx, chain: char, bytes: &[u8], what: &str) -> Option<(bool, u8, u64)> {
+	set_env(chain, false);
+	let mut src = &bytes[..];
+	let r: Result<MsgHeaderWrapper, _> = ser::deserialize(&mut src, ProtocolVersion(1), DeserializationMode::default());
+	let consumed = bytes.len() - src.len();
+	let lhs = format!("ser hdr {} {}", chain, hex(bytes));
+	match r {
+		Ok(MsgHeaderWrapper::Known(h)) => {
+			cx.out.line(&lhs, &format!("known {} {} {}", h.msg_type as u8, h.msg_len, consumed));
+			cx.stat(format!("MsgHeader {} {} known", chain, what));
+			// canonical form: the header re-encodes to the bytes consumed
+			let re = enc_at(&h, 1).unwrap();
+			if re[..] != bytes[..consumed] {
+				cx.out.raw(&format!("#ORACLE-FAIL C10 MsgHeader: accepted header does not re-encode to the bytes read: {}", hex(bytes)));
+			}
+			Some((true, h.msg_type as u8, h.msg_len))
+		}
+		Ok(MsgHeaderWrapper::Unknown(len, t)) => {
+			cx.out.line(&lhs, &format!("unknown {} {} {}", t, len, consumed));
+			cx.stat(format!("MsgHeader {} {} unknown", chain, what));
+			Some((false, t, len))
+		}
+		Err(e) => {
+			cx.out.line(&lhs, &format!("err {}", err_name(&e)));
+			cx.stat(format!("MsgHeader {} {} err:{}", chain, what, err_name(&e)));
+			None
+		}
+	}
+}
+
+fn msg_headers(cx: &mut Ctx) {
+	for chain in ['A', 'M'].iter() {
+		set_env(*chain, false);
+		let mbw = global::max_block_weight();
+		let magic: [u8; 2] = if *chain == 'M' { [97, 61] } else { [73, 43] };
+		let mk = |t: u8, len: u64| -> Vec<u8> {
+			let mut b = vec![magic[0], magic[1], t];
+			b.extend_from_slice(&len.to_be_bytes());
+			b
+		};
+		for ty in ALL_TYPES.iter() {
+			let t = *ty as u8;
+			let lim = max_msg_size_copy(t, mbw) * 4;
+			let lens = [0u64, 1, lim.saturating_sub(1), lim, lim + 1, u64::MAX, cx.rng.below(lim + 1), pick_u64(&mut cx.rng)];
+			for len in lens.iter() {
+				// the real writer
+				let h = MsgHeader::new(*ty, *len);
+				let b = enc_at(&h, 1).unwrap();
+				cx.out.line(&format!("ser enc MsgHeader{} 1 {} {} {}", chain, chain, t, len), &format!("{} none", hex(&b)));
+				if b != mk(t, *len) {
+					cx.out.raw(&format!("#ORACLE-FAIL C10 MsgHeader: writer output is not magic, type, length: {}", hex(&b)));
+				}
+				let r = hdr_line(cx, *chain, &b, if *len <= lim { "within-limit" } else { "over-limit" });
+				match (r, *len <= lim) {
+					(Some((true, t2, l2)), true) if t2 == t && l2 == *len => {}
+					(None, false) => {}
+					_ => cx.out.raw(&format!("#ORACLE-FAIL C10 MsgHeader: type {} length {} (limit {}): header does not round-trip / limit not applied: {}", t, len, lim, hex(&b))),
+				}
+			}
+		}
+		// unknown type bytes come back as Unknown(len, type), over the default limit they are refused
+		let lim = max_msg_size_copy(255, mbw) * 4;
+		for t in [29u8, 30, 64, 128, 200, 255].iter() {
+			for len in [0u64, 7, lim, lim + 1, u64::MAX].iter() {
+				let b = mk(*t, *len);
+				let r = hdr_line(cx, *chain, &b, "unknown-type");
+				match (r, *len <= lim) {
+					(Some((false, t2, l2)), true) if t2 == *t && l2 == *len => {}
+					(None, false) => {}
+					_ => cx.out.raw(&format!("#ORACLE-FAIL C10 MsgHeader: unknown type {} length {}: not Unknown(len, type) / limit not applied: {}", t, len, hex(&b))),
+				}
+			}
+		}
+		// magic
+		for (m0, m1) in [(magic[0] ^ 1, magic[1]), (magic[0], magic[1] ^ 1), (0, 0), (magic[1], magic[0])].iter() {
+			let mut b = mk(3, 16);
+			b[0] = *m0;
+			b[1] = *m1;
+			if hdr_line(cx, *chain, &b, "wrong-magic").is_some() {
+				cx.out.raw(&format!("#ORACLE-FAIL C10 MsgHeader: wrong magic accepted: {}", hex(&b)));
+			}
+		}
+		// truncations, trailing bytes, random bytes
+		let good = mk(4, 16);
+		for l in 0..11 {
+			hdr_line(cx, *chain, &good[..l], "trunc");
+		}
+		let mut g2 = good.clone();
+		g2.extend_from_slice(&[1, 2, 3]);
+		hdr_line(cx, *chain, &g2, "trailing");
+		for _ in 0..(if cx.thorough { 400 } else { 60 }) {
+			let mut b = cx.rng.bytes(11);
+			if cx.rng.chance(3, 4) {
+				b[0] = magic[0];
+				b[1] = magic[1];
+			}
+			if cx.rng.chance(1, 2) {
+				for x in b[3..9].iter_mut() {
+					*x = 0;
+				}
+			}
+			hdr_line(cx, *chain, &b, "random");
+		}
+	}
+}
+
+fn gen_addr(rng: &mut Rng, kind: u64) -> PeerAddr {
+	let port = match rng.below(4) {
+		0 => 0,
+		1 => 65535,
+		2 => 3414,
+		_ => rng.below(65536) as u16,
+	};
+	match kind % 6 {
+		0 => PeerAddr(SocketAddr::V4(SocketAddrV4::new(Ipv4Addr::new(127, 0, 0, 1), port))),
+		1 => {
+			let b = rng.bytes(4);
+			PeerAddr(SocketAddr::V4(SocketAddrV4::new(Ipv4Addr::new(b[0], b[1], b[2], b[3]), port)))
+		}
+		2 => PeerAddr(SocketAddr::V4(SocketAddrV4::new(Ipv4Addr::new(255, 255, 255, 255), port))),
+		3 => {
+			// a V6 address that `to_ipv4_mapped()` leaves alone: first segment non-zero
+			let s: Vec<u16> = (0..8).map(|_| rng.next() as u16).collect();
+			PeerAddr(SocketAddr::V6(SocketAddrV6::new(Ipv6Addr::new(s[0] | 0x2000, s[1], s[2], s[3], s[4], s[5], s[6], s[7]), port, 0, 0)))
+		}
+		4 => PeerAddr(SocketAddr::V6(SocketAddrV6::new(Ipv6Addr::new(0xfe80, 0, 0, 0, 0, 0, 0, 1), port, 0, 0))),
+		_ => PeerAddr(SocketAddr::V6(SocketAddrV6::new(Ipv6Addr::new(0, 0, 0, 0, 0, 0xfffe, 0x0102, 0x0304), port, 0, 0))),
+	}
+}
+
+/// V6 addresses that the reader turns into something else
+fn odd_addrs() -> Vec<PeerAddr> {
+	let v6 = |s: [u16; 8], port: u16, flow: u32, scope: u32| {
+		PeerAddr(SocketAddr::V6(SocketAddrV6::new(Ipv6Addr::new(s[0], s[1], s[2], s[3], s[4], s[5], s[6], s[7]), port, flow, scope)))
+	};
+	vec![
+		v6([0, 0, 0, 0, 0, 0, 0, 1], 3414, 0, 0),            // [::1]:3414 (IPv6 loopback)
+		v6([0, 0, 0, 0, 0, 0, 0, 0], 3414, 0, 0),            // [::]:3414
+		v6([0, 0, 0, 0, 0, 0xffff, 0xc0a8, 0x0001], 13414, 0, 0), // ::ffff:192.168.0.1 (IPv4-mapped)
+		v6([0, 0, 0, 0, 0, 0, 0x0a00, 0x0001], 1, 0, 0),     // ::10.0.0.1 (IPv4-compatible)
+		v6([0xfe80, 0, 0, 0, 0, 0, 0, 1], 3414, 0, 2),       // link-local with a scope id
+		v6([0x2001, 0xdb8, 0, 0, 0, 0, 0, 1], 3414, 7, 0),   // with flow info
+	]
+}
+
+fn caps_of(rng: &mut Rng) -> Capabilities {
+	match rng.below(4) {
+		0 => Capabilities::UNKNOWN,
+		1 => Capabilities::default(),
+		2 => Capabilities::from_bits_truncate(CAPS_ALL),
+		_ => Capabilities::from_bits_truncate(rng.next() as u32),
+	}
+}
+
+fn user_agent(rng: &mut Rng, i: usize) -> String {
+	match i % 6 {
+		0 => String::new(),
+		1 => "MW/Grin 5.4.0-alpha.0".to_string(),
+		2 => "grïn ✓ 🚀 \u{7ff}\u{800}\u{ffff}\u{10000}\u{10ffff}".to_string(),
+		3 => "x".repeat(1000),
+		4 => String::from_utf8(rng.bytes(20).iter().map(|b| b % 128).collect()).unwrap(),
+		_ => "\u{0}\u{7f}\u{80}".to_string(),
+	}
+}
+
+fn pver(rng: &mut Rng) -> ProtocolVersion {
+	ProtocolVersion(*rng.pick(&[0u32, 1, 2, 3, 1000, u32::MAX, 65536]))
+}
+
+const BAD_UTF8: [&[u8]; 8] = [
+	&[0x80], &[0xc0, 0x80], &[0xc2], &[0xe0, 0x80, 0x80], &[0xed, 0xa0, 0x80], &[0xf0, 0x80, 0x80, 0x80],
+	&[0xf4, 0x90, 0x80, 0x80], &[0xff],
+];
+
+fn messages(cx: &mut Ctx) {
+	for (name, real) in [
+		("max_peer_addrs", grin_p2p::types::MAX_PEER_ADDRS as u64),
+		("max_locators", grin_p2p::types::MAX_LOCATORS as u64),
+		("capabilities_all", Capabilities::all().bits() as u64),
+		("msg_header_len", MsgHeader::LEN as u64),
+	]
+	.iter()
+	{
+		cx.out.line(&format!("ser const {}", name), &real.to_string());
+	}
+	msg_headers(cx);
+	let n = if cx.thorough { 200 } else { 36 };
+	// PeerAddr
+	for i in 0..n {
+		let a = gen_addr(&mut cx.rng, i as u64);
+		roundtrip_all(cx, 'A', false, &a, true);
+		let b = enc_at(&a, 1).unwrap();
+		generic_mutations::<PeerAddr>(cx, 1, false, 'A', &b, 19, 6);
+		// every tag byte other than 0 is read as V6
+		for _ in 0..2 {
+			let t = cx.rng.range(2, 255) as u8;
+			let mut m = vec![t];
+			m.extend_from_slice(&cx.rng.bytes(18));
+			m[1] |= 0x20;
+			dec_case::<PeerAddr>(cx, 1, false, 'A', &m, None, Expect::Reject, "unknown-address-tag");
+		}
+	}
+	for a in odd_addrs().iter() {
+		roundtrip_all(cx, 'A', false, a, true);
+	}
+	// Hand / Shake
+	for i in 0..n {
+		let h = Hand {
+			version: pver(&mut cx.rng),
+			capabilities: caps_of(&mut cx.rng),
+			nonce: pick_u64(&mut cx.rng),
+			genesis: hash32(&mut cx.rng),
+			total_difficulty: Difficulty::from_num(pick_u64(&mut cx.rng)),
+			sender_addr: gen_addr(&mut cx.rng, i as u64),
+			receiver_addr: gen_addr(&mut cx.rng, (i / 6) as u64),
+			user_agent: user_agent(&mut cx.rng, i),
+		};
+		roundtrip_all(cx, 'A', false, &h, true);
+		let s = Shake {
+			version: pver(&mut cx.rng),
+			capabilities: caps_of(&mut cx.rng),
+			genesis: hash32(&mut cx.rng),
+			total_difficulty: Difficulty::from_num(pick_u64(&mut cx.rng)),
+			user_agent: user_agent(&mut cx.rng, i + 1),
+		};
+		roundtrip_all(cx, 'A', false, &s, true);
+		let hb = enc_at(&h, 1).unwrap();
+		let sb = enc_at(&s, 1).unwrap();
+		if h.user_agent.len() < 100 {
+			generic_mutations::<Hand>(cx, 1, false, 'A', &hb, 10, 16);
+			generic_mutations::<Shake>(cx, 3, false, 'A', &sb, 10, 16);
+		}
+		// capability bits outside the defined flags
+		for bits in [0x80u32, 0xffff_ffff, 0x8000_0001, 1 << cx.rng.range(7, 31)].iter() {
+			let mut m = hb.clone();
+			m[4..8].copy_from_slice(&bits.to_be_bytes());
+			dec_case::<Hand>(cx, 1, false, 'A', &m, None, Expect::Any, "unknown-capability-bits");
+			let mut m = sb.clone();
+			m[4..8].copy_from_slice(&bits.to_be_bytes());
+			dec_case::<Shake>(cx, 1, false, 'A', &m, None, Expect::Any, "unknown-capability-bits");
+			dec_case::<GetPeerAddrs>(cx, 1, false, 'A', &bits.to_be_bytes(), None, Expect::Any, "unknown-capability-bits");
+		}
+		// a user agent that is not UTF-8 / longer than one read may be
+		let bad = BAD_UTF8[i % BAD_UTF8.len()];
+		let ua_off = sb.len() - 32 - s.user_agent.len() - 8;
+		let mut m = sb[..ua_off].to_vec();
+		m.extend_from_slice(&(bad.len() as u64 + 1).to_be_bytes());
+		m.push(b'a');
+		m.extend_from_slice(bad);
+		m.extend_from_slice(&sb[sb.len() - 32..]);
+		dec_case::<Shake>(cx, 1, false, 'A', &m, None, Expect::Reject, "invalid-utf8");
+		let mut m = sb[..ua_off].to_vec();
+		m.extend_from_slice(&100_001u64.to_be_bytes());
+		m.extend_from_slice(&vec![b'a'; 200]);
+		dec_case::<Shake>(cx, 1, false, 'A', &m, None, Expect::Reject, "string-over-cap");
+		// GetPeerAddrs, Ping, Pong, TxHashSet*, SegmentRequest, PeerError
+		let g = GetPeerAddrs { capabilities: caps_of(&mut cx.rng) };
+		roundtrip_all(cx, 'A', false, &g, true);
+		let pi = Ping { total_difficulty: Difficulty::from_num(pick_u64(&mut cx.rng)), height: pick_u64(&mut cx.rng) };
+		roundtrip_all(cx, 'A', false, &pi, true);
+		let po = Pong { total_difficulty: Difficulty::from_num(pick_u64(&mut cx.rng)), height: pick_u64(&mut cx.rng) };
+		roundtrip_all(cx, 'A', false, &po, true);
+		let tr = TxHashSetRequest { hash: hash32(&mut cx.rng), height: pick_u64(&mut cx.rng) };
+		roundtrip_all(cx, 'A', false, &tr, true);
+		let ta = TxHashSetArchive { hash: hash32(&mut cx.rng), height: pick_u64(&mut cx.rng), bytes: pick_u64(&mut cx.rng) };
+		roundtrip_all(cx, 'A', false, &ta, true);
+		let sr = SegmentRequest { block_hash: hash32(&mut cx.rng), identifier: gen_seg_id(&mut cx.rng) };
+		roundtrip_all(cx, 'A', false, &sr, true);
+		let pe = PeerError { code: pick_u64(&mut cx.rng) as u32, message: user_agent(&mut cx.rng, i + 2) };
+		roundtrip_all(cx, 'A', false, &pe, true);
+		if i < 8 {
+			generic_mutations::<Ping>(cx, 1, false, 'A', &enc_at(&pi, 1).unwrap(), 16, 2);
+			generic_mutations::<TxHashSetArchive>(cx, 1, false, 'A', &enc_at(&ta, 1).unwrap(), 48, 2);
+			generic_mutations::<SegmentRequest>(cx, 1, false, 'A', &enc_at(&sr, 1).unwrap(), 41, 2);
+			generic_mutations::<PeerError>(cx, 1, false, 'A', &enc_at(&pe, 1).unwrap(), 12, 6);
+			let mut m = pe.code.to_be_bytes().to_vec();
+			m.extend_from_slice(&(bad.len() as u64).to_be_bytes());
+			m.extend_from_slice(bad);
+			dec_case::<PeerError>(cx, 1, false, 'A', &m, None, Expect::Reject, "invalid-utf8");
+		}
+	}
+	// PeerAddrs: counts around MAX_PEER_ADDRS
+	for (k, cnt) in [0usize, 1, 2, 7, 255, 256, 257, 300].iter().enumerate() {
+		let peers: Vec<PeerAddr> = (0..*cnt).map(|j| gen_addr(&mut cx.rng, (j + k) as u64)).collect();
+		let pa = PeerAddrs { peers };
+		if *cnt <= 256 {
+			roundtrip_all(cx, 'A', false, &pa, *cnt <= 7);
+		} else {
+			// the writer does not refuse; the reader does
+			let b = enc_at(&pa, 1).unwrap();
+			dec_case::<PeerAddrs>(cx, 1, false, 'A', &b, None, Expect::Reject, "count-over-max-peer-addrs");
+		}
+		let b = enc_at(&pa, 1).unwrap();
+		for c in [*cnt as u32 + 1, 257, 65536, u32::MAX].iter() {
+			let mut m = b.clone();
+			m[..4].copy_from_slice(&c.to_be_bytes());
+			let exp = if *c > 256 { Expect::Reject } else { Expect::Any };
+			dec_case::<PeerAddrs>(cx, 1, false, 'A', &m, None, exp, if *c > 256 { "count-over-max-peer-addrs" } else { "count-vs-content" });
+		}
+		if *cnt >= 1 && *cnt <= 7 {
+			let mut m = b.clone();
+			m[..4].copy_from_slice(&(*cnt as u32 - 1).to_be_bytes());
+			dec_case::<PeerAddrs>(cx, 1, false, 'A', &m, None, Expect::Any, "count-vs-content");
+			generic_mutations::<PeerAddrs>(cx, 1, false, 'A', &b, 10, 10);
+		}
+	}
+	{
+		let pa = PeerAddrs { peers: odd_addrs() };
+		roundtrip_all(cx, 'A', false, &pa, true);
+	}
+	// Locator: counts around MAX_LOCATORS, and the u8 count of the writer
+	for cnt in [0usize, 1, 2, 19, 20, 21, 255, 256, 276].iter() {
+		// over the limit the hashes are a fixed pattern so that the probe line names the whole value
+		let l = Locator {
+			hashes: (0..*cnt)
+				.map(|j| if *cnt <= 20 { hash32(&mut cx.rng) } else { Hash::from_vec(&[(j % 256) as u8; 32]) })
+				.collect(),
+		};
+		if *cnt <= 20 {
+			roundtrip_all(cx, 'A', false, &l, true);
+			let b = enc_at(&l, 1).unwrap();
+			for c in [21u8, 22, 128, 255].iter() {
+				let mut m = b.clone();
+				m[0] = *c;
+				m.extend_from_slice(&vec![0u8; 32 * 255]);
+				dec_case::<Locator>(cx, 1, false, 'A', &m, None, Expect::Reject, "count-over-max-locators");
+			}
+			if *cnt > 0 {
+				let mut m = b.clone();
+				m[0] -= 1;
+				dec_case::<Locator>(cx, 1, false, 'A', &m, None, Expect::Any, "count-vs-content");
+			}
+			let mut m = b.clone();
+			m[0] += 1;
+			dec_case::<Locator>(cx, 1, false, 'A', &m, None, Expect::Any, "count-vs-content");
+		} else {
+			let b = enc_case(cx, 1, 'A', &l).unwrap();
+			let mut src = &b[..];
+			let r: Result<Locator, _> = ser::deserialize(&mut src, ProtocolVersion(1), DeserializationMode::default());
+			let value = format!("Locator {{ hashes: [h_0 .. h_{}] }} with h_j = 32 bytes of value j mod 256; encoding = {}… ({} bytes)", cnt - 1, hex(&b[..34]), b.len());
+			match r {
+				Err(e) => cx.out.raw(&format!(
+					"#KNOWN-PROBE C10 locator-count-not-checked-by-writer: {}: written with count byte {:02x} and refused by Locator::read ({})",
+					value, b[0], err_name(&e)
+				)),
+				Ok(d) => cx.out.raw(&format!(
+					"#KNOWN-PROBE C10 locator-count-not-checked-by-writer: {}: written with count byte {:02x} (len as u8) and read back as {} hashes leaving {} bytes unread",
+					value, b[0], d.hashes.len(), src.len()
+				)),
+			}
+		}
+	}
+	// BanReason: all reasons, unknown discriminants, short reads
+	for r in ALL_REASONS.iter() {
+		let br = BanReason { ban_reason: *r };
+		roundtrip_all(cx, 'A', false, &br, true);
+	}
+	for x in [8i32, 9, 255, 256, i32::MAX, -1, i32::MIN, 1 << 24].iter() {
+		dec_case::<BanReason>(cx, 1, false, 'A', &x.to_be_bytes(), None, Expect::Reject, "unknown-ban-reason");
+	}
+	for l in 0..4usize {
+		for fill in [0u8, 1, 7, 0xff].iter() {
+			dec_case::<BanReason>(cx, 1, false, 'A', &vec![*fill; l], None, Expect::Any, "short-read");
+		}
+	}
+	dec_case::<BanReason>(cx, 2, false, 'A', &[0, 0, 0, 5, 9, 9], None, Expect::Any, "trailing");
+	// Headers: writer only (there is no `Readable for Headers`; the codec streams it: C19)
+	for chain in ['A', 'M'].iter() {
+		for cnt in [0usize, 1, 2, 5].iter() {
+			set_env(*chain, false);
+			let hs: Vec<BlockHeader> = (0..*cnt).map(|_| gen_header(&mut cx.rng, *chain)).collect();
+			let toks: Vec<String> = hs.iter().map(|h| header_tokens(h)).collect();
+			let msg = Headers { headers: hs };
+			for v in [1u32, 3].iter() {
+				let b = enc_at(&msg, *v).unwrap();
+				let lhs = format!("ser enc Headers {} {} {}{}{}", v, chain, cnt, if *cnt > 0 { " " } else { "" }, toks.join(" "));
+				cx.out.line(&lhs, &format!("{} none", hex(&b)));
+				let mut expect = (*cnt as u16).to_be_bytes().to_vec();
+				for h in &msg.headers {
+					expect.extend_from_slice(&enc_at(h, *v).unwrap());
+				}
+				if b != expect {
+					cx.out.raw(&format!("#ORACLE-FAIL C10 Headers v{}: encoding is not u16 count then the headers: {}", v, hex(&b)));
+				}
+			}
+		}
+	}
+	{
+		// `headers.len() as u16`: 65536 headers are written with a count of 0
+		set_env('A', false);
+		let h = gen_header(&mut cx.rng, 'A');
+		let msg = Headers { headers: vec![h; 65536] };
+		let b = enc_at(&msg, 1).unwrap();
+		if b[0] == 0 && b[1] == 0 && b.len() > 2 {
+			let hb = enc_at(&msg.headers[0], 1).unwrap();
+			cx.out.raw(&format!(
+				"#KNOWN-PROBE C10 headers-count-not-checked-by-writer: Headers {{ headers: 65536 copies of the header {} }} is written with count bytes {} (len as u16) followed by {} bytes of headers",
+				hex(&hb),
+				hex(&b[..2]),
+				b.len() - 2
+			));
+		}
+	}
+}
+
 fn main() {
 	quiet_panics();
 	let args: Vec<String> = std::env::args().collect();
@@ -1697,6 +3628,15 @@ fn main() {
 	if section == "all" || section == "block" {
 		proofs_headers(&mut cx);
 		compact_blocks(&mut cx);
+	}
+	if section == "all" || section == "seg" {
+		segments(&mut cx);
+	}
+	if section == "all" || section == "bitmap" {
+		bitmaps(&mut cx);
+	}
+	if section == "all" || section == "msg" {
+		messages(&mut cx);
 	}
 	let stats = std::mem::take(&mut cx.stats);
 	// per type x version x kind x outcome
